@@ -1,20 +1,22 @@
 SPECIFICATION Spec
 CONSTANTS
-  Warps = {"w0"}
+  Warps = {"w0", "w1"}
   Nodes = {"n0", "n1"}
   Edges = {"e0"}
   Types = {"tA", "tB"}
-  Atoms = {"p0"}
+  Atoms = {"p0", "p1"}
   RankW <- MC_RankW
   RankN <- MC_RankN
   RankE <- MC_RankE
   RootWarp = "w0"
   RootNode = "n0"
-  ChildWarps = {}
+  ChildWarps = {"w1"}
+  FreeWarps = {"w1"}
   EdgeTypes = {"tA"}
   NodeTypes = {"tA"}
+  RootNodeChoices = {"n0", "n1"}
   Export = TRUE
-  FreeWarps = {}
   None = None
-INVARIANTS Inv_WellFormed Inv_DiffLaw Inv_DiffIdentity Inv_Export
+INVARIANTS Inv_WellFormed Inv_TwoCanonsAgree Inv_ReachClosed Inv_Export
+PROPERTIES UnreachableEditKeepsCanon
 CHECK_DEADLOCK FALSE
